@@ -27,7 +27,10 @@ RULE = ("Hypothesis draws write programs: 1-2 writer sessions (first 'w', later 
         'the window holding each single write); further jobs write long arrays whose lengths lie on and next to '
         'powers of two (512..196608 values, path and stream targets) and 100-140 segments with twin channels; '
         'programs may overwrite an existing file or use one writer object for all sessions.'
-        ' write_segment receives lists, tuples or one-shot iterators.')
+        ' write_segment receives lists, tuples or one-shot iterators.'
+        ' Wide programs (100-320 channel objects per call, up to 300 properties per object), datetime64[ns] / [ms] '
+        'data and properties, names and texts containing the segment tags, names differing only in case, and re-used '
+        'objects whose properties are changed in place are included.')
 ASSUMPTIONS = [
     "programs the writer rejects are outside the statement (acceptance rate is measured; < 95% makes the run inconclusive)",
     "one data type per channel over the program (lists of ints are pinned to one inference bracket)",
